@@ -347,6 +347,14 @@ def run(ctx):
                                "cursor (one read of chars().next(), no cursor write before it), so ANY's content is the consumed character")
     next_rule(rnx, fs["pest_typed"])
     rnx.require(2, "implementations of next")
+    # what a leaf reads is the text at the cursor, in every build profile: get() slices from the cursor field up to end() (C08's
+    # instances; seed C17-8: the release arm of SubInput2::get sliced from `start`)
+    from . import c08
+    rget = ctx.rule("R17-GET", "for each Input impl, in debug and release builds, get() slices the input from the cursor field (C08's R08-GET instances): "
+                               "the text a leaf compares and stores is the text it consumes")
+    frel = facts.load("core", "rel")
+    c08.get_rule(rget, frel["pest_typed"], frel["pest_typed.rel"])
+    rget.require(6, "impl x profile")
     # built-in aliases are choices too: a character's variant index is the position of its alternative in pest's definition
     from . import c01
     ctx.adopt(c01.run_builtin_order, {"R01-BUILTIN-ORDER": "R17-BUILTIN"})
